@@ -6,6 +6,7 @@ import (
 	"os"
 	"path/filepath"
 	"runtime"
+	"sort"
 	"strings"
 	"sync"
 	"time"
@@ -35,25 +36,27 @@ type flowCase struct {
 	AutoRetry int         // --autoretry value
 	Timeout   time.Duration
 	Reattach  bool // run mrp a second time on the completed pipestance and re-check outs/
+	Relocate  bool // after the interruption the top-level pipeline directory is moved elsewhere and replaced by a symlink
 	Template  int  // 0 = random program, k>0 = pgen.Template(k-1)
 }
 
 type flowResult struct {
-	fc       *flowCase
-	prog     *pgen.Program
-	rejected string
-	run      *vrun.RunResult
-	report   *vmon.Report
-	model    *pgen.Model
-	obs      *vmon.Obs
-	dir      string
-	races    []vrun.RaceReport
-	sched    string
-	partial  bool
-	crashed  bool // the first run was interrupted at the requested point
-	unzipped int  // metadata files restored from the --zip archive for the monitors
-	route    vmon.RouteStats
-	vdr      vmon.VdrStats
+	fc             *flowCase
+	prog           *pgen.Program
+	rejected       string
+	run            *vrun.RunResult
+	report         *vmon.Report
+	model          *pgen.Model
+	obs            *vmon.Obs
+	dir            string
+	races          []vrun.RaceReport
+	sched          string
+	partial        bool
+	crashed        bool // the first run was interrupted at the requested point
+	unzipped       int  // metadata files restored from the --zip archive for the monitors
+	route          vmon.RouteStats
+	relocatedFiles int // files lying outside the pipestance after the relocation scenario
+	vdr            vmon.VdrStats
 }
 
 func runFlowCase(c *vf.Ctx, fc *flowCase) *flowResult {
@@ -187,6 +190,8 @@ func runFlowCase(c *vf.Ctx, fc *flowCase) *flowResult {
 		cores = 4
 	}
 	args := []string{"--vdrmode=" + fc.Vdr, fmt.Sprintf("--localcores=%d", cores), "--localmem=16", fmt.Sprintf("--autoretry=%d", fc.AutoRetry)}
+	var relocated map[string]int64
+	relocatedTok := map[string]string{}
 	args = append(args, fc.ExtraArg...)
 	if v := os.Getenv("VERIF_EXTRA_ARGS"); v != "" {
 		args = append(args, strings.Fields(v)...) // triage override
@@ -219,6 +224,42 @@ func runFlowCase(c *vf.Ctx, fc *flowCase) *flowResult {
 		if res.crashed && strings.HasSuffix(fc.Crash, ":KILL") {
 			os.Remove(filepath.Join(cs.PsDir, "_lock")) // as the operator is told to
 		}
+		if fc.Relocate && res.crashed {
+			// the operator moves the bulky top-level pipeline directory to
+			// another volume and leaves a symlink: what is there now lies
+			// outside the pipestance directory and must not be removed by VDR
+			src := filepath.Join(cs.PsDir, p.Top.Callee)
+			dst := filepath.Join(dir, "elsewhere", p.Top.Callee)
+			os.MkdirAll(filepath.Dir(dst), 0755)
+			if err := os.Rename(src, dst); err == nil && os.Symlink(dst, src) == nil {
+				relocated = map[string]int64{}
+				filepath.Walk(dst, func(fp string, info os.FileInfo, err error) error {
+					// stage-written files (files/ directories, not metadata) of jobs whose
+					// completion is on record: an unfinished job is reset by the restart,
+					// which rightly removes what its first attempt wrote
+					if err == nil && info.Mode().IsRegular() {
+						if k := strings.Index(fp, "/files/"); k > 0 {
+							if _, e := os.Stat(filepath.Join(fp[:k], "_complete")); e == nil {
+								relocated[fp] = info.Size()
+								if b, err := os.ReadFile(fp); err == nil {
+									// same key as outsTree: content token, or the first bytes
+									c := string(b)
+									if strings.HasPrefix(c, "tok:") {
+										if i := strings.IndexByte(c, '\n'); i > 0 {
+											c = c[:i]
+										}
+									} else if len(c) > 20 {
+										c = c[:20]
+									}
+									relocatedTok[fp] = c
+								}
+							}
+						}
+					}
+					return nil
+				})
+			}
+		}
 	}
 	res.run = cs.Run(vrun.RunOpts{Race: fc.Race, Args: args, Seed: fc.Seed, Delays: fc.Delays, Inventory: true,
 		Timeout: pickTimeout(fc.Timeout), StallLoops: 25})
@@ -243,7 +284,32 @@ func runFlowCase(c *vf.Ctx, fc *flowCase) *flowResult {
 		}
 		vmon.CheckTopOuts(res.obs, p, res.model, res.report)
 		vmon.CheckOutsDir(res.obs, p, res.model, res.report)
-		if fc.Vdr != "disable" {
+		if relocated != nil {
+			// only the clause "nothing outside the pipestance directory is touched"
+			// is judged in this scenario (VDR is expected to refuse the rest)
+			res.relocatedFiles = len(relocated)
+			// (post-processing moves the files named by top-level outputs into
+			// outs/: those have not been removed but materialised)
+			outsToks := map[string]bool{}
+			for _, tok := range outsTree(cs) {
+				outsToks[tok] = true
+			}
+			var gone []string
+			for fp, sz := range relocated {
+				if st, err := os.Lstat(fp); err != nil || st.Size() != sz {
+					if tok := relocatedTok[fp]; tok != "" && outsToks[tok] {
+						continue
+					}
+					gone = append(gone, strings.TrimPrefix(fp, dir+"/"))
+				}
+			}
+
+			sort.Strings(gone)
+			if len(gone) > 0 {
+				res.report.Findings = append(res.report.Findings, vmon.Finding{Prop: "C14", Sig: "removed-outside-pipestance:through-symlinked-ancestor",
+					What: fmt.Sprintf("after the interrupted run the top-level pipeline directory was moved outside the pipestance directory and replaced by a symlink; the restarted mrp removed %d of the %d files lying there, e.g. %s", len(gone), len(relocated), gone[0])})
+			}
+		} else if fc.Vdr != "disable" {
 			res.vdr = vmon.CheckVDR(res.obs, p, res.model, res.report, fc.Vdr, cs.Trace())
 		}
 		// canary beside the pipestance
@@ -426,6 +492,7 @@ func flowCampaign(c *vf.Ctx, prop string, cases []*flowCase, nontrivial func(*fl
 		c.Count("journal_files_routing_checked", int64(res.route.Routed))
 		c.Count("journal_files_of_superseded_attempts", int64(res.route.StaleAttempt))
 		c.Count("journal_files_dropped_by_mrp", int64(res.route.Unrouted))
+		c.Count("files_relocated_outside_the_pipestance_checked", int64(res.relocatedFiles))
 		c.Count("vdr_removals_observed", int64(res.vdr.Removals))
 		c.Count("vdr_reports_checked", int64(res.vdr.Reports))
 		c.Count("vdr_listed_paths_checked", int64(res.vdr.ListedPaths))
@@ -855,6 +922,14 @@ func init() {
 						"vdr:final:write#1:TERM", "vdr:partial:begin#2:INT", "cleanup:vdr_done#1:TERM", "vdr:pipestance:begin#1:TERM",
 						"vdr:remove:chunk_tmp#2:TERM", "loop:begin#4:KILL", "loop:begin#6:KILL", "vdr:partial:write#3:INT", "vdr:remove:join_tmp#1:TERM"}
 					cases[len(cases)-1].Crash = crashes[(i/5)%len(crashes)]
+				}
+				if i%10 == 7 && modes[i%3] != "post" {
+					// interrupted mid-run, the top-level pipeline directory relocated
+					// behind a symlink, restarted
+					fc := cases[len(cases)-1]
+					fc.Crash = []string{"loop:begin#4:KILL", "loop:begin#6:TERM", "loop:begin#8:KILL", "loop:begin#5:INT"}[(i/10)%4]
+					fc.Relocate = true
+					fc.DelayMs = 150
 				}
 			}
 			return cases
